@@ -1,0 +1,41 @@
+//go:build verif
+
+package node
+
+import (
+	"io"
+
+	"github.com/paulsonkoly/calc/vm"
+)
+
+// Verification hooks (build tag verif): exported wrappers over the
+// unexported REPL plumbing. No behaviour of their own.
+
+// VerifReportError calls reportError.
+func VerifReportError(err ParserError, line string) { reportError(err, line) }
+
+// VerifProcessInput calls processInput.
+func VerifProcessInput(input string, p Parser, vm *vm.Type, doOut bool) {
+	processInput(input, p, vm, doOut)
+}
+
+type verifLines struct {
+	lines []string
+	i     int
+}
+
+func (v *verifLines) read() (string, error) {
+	if v.i >= len(v.lines) {
+		return "", io.EOF
+	}
+	v.i++
+	return v.lines[v.i-1], nil
+}
+
+func (v *verifLines) Close() error { return nil }
+
+// VerifLoop runs Loop over a fixed list of lines, delivered as the readline
+// reader delivers them (without the trailing newline).
+func VerifLoop(lines []string, p Parser, vm *vm.Type, doOut bool) {
+	Loop(&verifLines{lines: lines}, p, vm, doOut)
+}
